@@ -114,7 +114,19 @@ def match_modulo(got_by_case, want_by_case, roles, fixed_prefixes=("box.", "$"))
     syms = set()
     for g in got_by_case.values():
         _symbols(g, syms)
-    scalars = sorted(s for s in syms if s not in FUNCS and not s.startswith(fixed_prefixes) and not re.fullmatch(r"[0-9.]+", s))
+    # tokens the reference itself spells out (variant names, field names ...) are not candidates for a role
+    ref_tokens = set()
+    def _toks(x):
+        if isinstance(x, str):
+            ref_tokens.update(re.findall(r"[A-Za-z_$@][A-Za-z0-9_.$@]*", x))
+        elif isinstance(x, list):
+            for y in x:
+                _toks(y)
+        elif isinstance(x, dict):
+            for k, y in x.items():
+                _toks(y)
+    _toks(list(want_by_case.values()))
+    scalars = sorted(s for s in syms if s not in FUNCS and s not in ref_tokens and not s.startswith(fixed_prefixes) and not re.fullmatch(r"[0-9.]+", s))
     prefixes = sorted({s.rsplit(".", 1)[0] + "." for s in scalars if "." in s})
     s_roles = [r for r in roles if not r.endswith(".")]
     o_roles = [r for r in roles if r.endswith(".")]
@@ -167,7 +179,7 @@ def _case_value(prog, ent, case_name, case):
         presets[ent["selector_type"]] = ("variant", case["preset"])
     elif ent.get("selector_type") and not isinstance(case, dict):
         presets[ent["selector_type"]] = ("variant", case_name)
-    name_case = case.get("name") if isinstance(case, dict) else None
+    name_case = (case.get("name") if isinstance(case, dict) else None) or ent.get("name")
     opaque = list(ent.get("opaque", ()))
     if ent.get("opaque_prefix"):
         opaque += [q for q in A.Evaluator(prog).by_path if q.startswith(ent["opaque_prefix"])]
